@@ -162,6 +162,34 @@ func init() {
 					out := concatLaw(c, parts, []string{"\n"})
 					c.Case(0, out != "part-not-accepted", out)
 				}})
+			// independence also holds across CALLS: what Parse returns for a text does not depend on the
+			// texts parsed earlier in the same process
+			sp = append(sp, h.Space{Name: "result-independent-of-earlier-parse-calls", Count: product(len(T), len(T)), ChunkHint: 512,
+				Describe: func(i uint64) interface{} {
+					d := unrank(i, len(T), len(T))
+					return fmt.Sprintf("Parse(%q) before and after Parse(%q)", T[d[1]], T[d[0]])
+				},
+				Run: func(c *h.Ctx, i uint64) {
+					d := unrank(i, len(T), len(T))
+					before, p1 := parseViews(T[d[1]])
+					_, p2 := parseViews(T[d[0]])
+					after, p3 := parseViews(T[d[1]])
+					c.Ops(3)
+					in := fmt.Sprintf("Parse(%s) before and after Parse(%s)", strconv.Quote(T[d[1]]), strconv.Quote(T[d[0]]))
+					if p1 != "" || p2 != "" || p3 != "" {
+						c.Fail("panic", in, p1+p2+p3)
+					} else if before.ok != after.ok || len(before.views) != len(after.views) || !eqStrings(before.warns, after.warns) {
+						c.Fail("result-depends-on-earlier-calls", in, fmt.Sprintf("accepted %v -> %v, %d -> %d messages", before.ok, after.ok, len(before.views), len(after.views)))
+					} else {
+						for k := range before.views {
+							if dd := before.views[k].diff(after.views[k]); dd != "" {
+								c.Fail("result-depends-on-earlier-calls", in, dd)
+								break
+							}
+						}
+					}
+					c.Case(0, true, "call-independent")
+				}})
 			sub := []int{1, 4, 9, 11, 12, 14, 15, 17, 24, 27, 30, 31, 33, 35, 38, 39}
 			if tier != "thorough" {
 				sub = sub[:9]
